@@ -11,6 +11,8 @@ pub struct Ctx {
     pub notes: Vec<String>,
     /// rendered leaf identifier -> symbolic path it stands for
     pub leaves: BTreeMap<String, Leaf>,
+    /// collections printed with zero elements (zero-field / zero-variant shapes)
+    pub empty: Vec<String>,
 }
 #[derive(Clone, Debug)]
 pub struct Leaf {
@@ -44,7 +46,7 @@ pub fn leaf_of(path: &str, ctx: &Ctx) -> Leaf {
     Leaf { path: path.to_string(), idx }
 }
 impl Ctx {
-    pub fn new(n: usize) -> Ctx { Ctx { n, idx: Default::default(), notes: vec![], leaves: Default::default() } }
+    pub fn new(n: usize) -> Ctx { Ctx { n, idx: Default::default(), notes: vec![], leaves: Default::default(), empty: vec![] } }
 }
 
 fn sanitize(s: &str) -> String {
@@ -165,6 +167,18 @@ pub fn render(v: &Val, ctx: &mut Ctx) -> TokenStream {
             }
             if (what == "call Index::from" || what == "call Index :: from") && deps.len() == 1 { return render(&deps[0], ctx); }
             if what == "call Ident::new" && !deps.is_empty() { return std::iter::once(ident(&text_of(&deps[0], ctx))).collect(); }
+            if matches!(what.as_str(), ".to_string" | ".strip_prefix" | ".unwrap_or" | ".trim_start_matches" | ".unraw") {
+                // the printed name of an identifier (possibly with `r#` removed): a string literal naming the leaf
+                let mut found: Option<String> = None;
+                fn first_sym(v: &Val, out: &mut Option<String>) { if out.is_some() { return; } match v { Val::Sym { path, .. } => *out = Some(path.clone()), Val::Opaque { deps, .. } => { for d in deps { first_sym(d, out); } } Val::Tmpl(t) => { for (_, h) in &t.holes { first_sym(h, out); } } _ => {} } }
+                first_sym(v, &mut found);
+                if let Some(path) = found {
+                    let name = format!("__s_{}", leaf_name(&path, ctx));
+                    let lf = leaf_of(&path, ctx);
+                    ctx.leaves.insert(name.clone(), lf);
+                    return std::iter::once(TokenTree::Literal(Literal::string(&name))).collect();
+                }
+            }
             if what.starts_with("unwrapped") || what.starts_with("Ok.") { if let Some(d) = deps.first() { return render(d, ctx); } }
             if what == "replace_tokens" && deps.len() == 3 {
                 let k = render(&deps[0], ctx);
@@ -214,7 +228,8 @@ fn expand_seq(v: &Val, ctx: &mut Ctx) -> Vec<TokenStream> {
         }
         Val::Rep { coll, items } => {
             let mut out = Vec::new();
-            for i in 1..=ctx.n {
+            let n = if ctx.empty.iter().any(|e| e == coll) { 0 } else { ctx.n };
+            for i in 1..=n {
                 ctx.idx.insert(coll.clone(), i);
                 for it in items { out.push(render(it, ctx)); }
             }
@@ -224,7 +239,8 @@ fn expand_seq(v: &Val, ctx: &mut Ctx) -> Vec<TokenStream> {
         Val::Opaque { .. } | Val::Sym { .. } => {
             // opaque iterator: N schematic elements
             let base = match v { Val::Sym { path, .. } => leaf_name(path, ctx), _ => sanitize(&v.short().chars().take(40).collect::<String>()) };
-            (1..=ctx.n).map(|i| std::iter::once(ident(&format!("__it_{base}_{i}"))).collect()).collect()
+            let n = match v { Val::Sym { path, .. } if ctx.empty.iter().any(|e| e == path) => 0, _ => ctx.n };
+            (1..=n).map(|i| std::iter::once(ident(&format!("__it_{base}_{i}"))).collect()).collect()
         }
         other => vec![render(other, ctx)],
     }
